@@ -55,20 +55,6 @@ def Quiet : Op → Bool
   | .lReverse _ | .lSort _ _ _ | .lClear _ | .dClear _ | .dPopItem _ => true
   | _ => false
 
-theorem addRoot_keeps (f : Forest) (t b : Tree) (hb : b ∈ f.roots) : b ∈ (f.addRoot t).roots := by
-  unfold Forest.addRoot
-  split
-  · simp [hb]
-  · exact hb
-
-theorem addRoots_keeps (ts : List Tree) : ∀ (f : Forest) (b : Tree), b ∈ f.roots → b ∈ (addRoots f ts).roots := by
-  induction ts with
-  | nil => intro f b hb; exact hb
-  | cons t ts ih =>
-    intro f b hb
-    simp only [addRoots, List.foldl_cons]
-    exact ih _ b (addRoot_keeps f t b hb)
-
 theorem C07_independent_partial (cfg : Cfg) (f : Forest) (n : Bool) (op : Op) (t : Nat)
     (hq : Quiet op = true) (ht : op.target? = some t) (b : Tree) (hb : b ∈ f.roots) (hdis : t ∉ b.ids) :
     b ∈ (step cfg f n op).forest.roots := by
